@@ -15,6 +15,7 @@ import (
 
 // GenCase is one case printed by TLC (GoEnum / GoGen): a program as abstract syntax plus the specification's verdicts.
 type GenCase struct {
+	Alter bool  `json:"alter"` // binding self-test: the compiler under test gets the program with `s := 1` turned into `s := 2`
 	ID   string `json:"id"`
 	Fam  string `json:"fam"`
 	Prog N      `json:"prog"`
